@@ -19,6 +19,8 @@ type (
 		sync.RWMutex
 		// isSent is true if tx has been already broadcasted.
 		isSent bool
+		// sentTx is the transaction (tx or backupTx) that has been broadcasted.
+		sentTx *transaction.Transaction
 		// attempts is how many times the request was processed.
 		attempts int
 		// time is the time when the request was last processed.
